@@ -582,5 +582,5 @@ def tasks(tier):
     q = tier == 'quick'
     tl = [('fixed', t_fixed, {}), ('ignore_success', t_ignore_success, {})]
     for i in range(10 if q else 16):
-        tl.append(('random_%d' % i, t_random, dict(n=150 if q else 2500)))
+        tl.append(('random_%d' % i, t_random, dict(n=300 if q else 2500)))
     return tl
